@@ -145,8 +145,9 @@ def run_property(pid, tier, seed, args):
 
     # --- verdict ----------------------------------------------------------------------
     wall = time.time() - t0
-    write_evidence(P, rep, tier, seed, wall, n_ob, n_dis, solver_time, backends, samples, fuc, bounded_out,
-                   cres + pyres + lemres)
+    if not args.only:      # a partial (debugging) run must not overwrite the evidence of the full check
+        write_evidence(P, rep, tier, seed, wall, n_ob, n_dis, solver_time, backends, samples, fuc, bounded_out,
+                       cres + pyres + lemres)
     for k in rep.known:
         rep.say("KNOWN-FINDING: property=%s %s" % (pid, k))
     if rep.failures:
